@@ -10,6 +10,7 @@ import (
 	"os"
 	"sync"
 
+	"verifharness/drivers/mux"
 	"verifharness/drivers/reg"
 	"verifharness/drivers/roots"
 )
@@ -25,6 +26,9 @@ type famFn func(in, out string, seed int64, par int, tier string) error
 var families = map[string]famFn{
 	"reg": func(in, out string, seed int64, par int, tier string) error {
 		return runFamily(in, out, seed, par, reg.Run, func(b reg.Behaviour) string { return b.Id })
+	},
+	"mux": func(in, out string, seed int64, par int, tier string) error {
+		return runFamily(in, out, seed, par, mux.Run, func(b mux.Instance) string { return b.Id })
 	},
 	"roots": func(in, out string, seed int64, par int, tier string) error {
 		return runFamily(in, out, seed, par, roots.Run, func(b roots.Behaviour) string { return b.Id })
